@@ -146,6 +146,7 @@ type Recording struct {
 	Ops  []Op      `json:"ops"`
 	Exit int       `json:"exit"`
 	Pre  []QBucket `json:"pre,omitempty"` // query results just before a final shutdown step
+	Post []QBucket `json:"post,omitempty"` // background mode: query results right after Shutdown() returned
 }
 
 func self() string {
@@ -193,6 +194,9 @@ func Record(h *History, dir string, keep bool) (*Recording, error) {
 	rec := &Recording{Ops: ops, Exit: code}
 	if b, err := os.ReadFile(ackf + ".pre"); err == nil {
 		json.Unmarshal(b, &rec.Pre)
+	}
+	if b, err := os.ReadFile(ackf + ".post"); err == nil {
+		json.Unmarshal(b, &rec.Post)
 	}
 	return rec, nil
 }
